@@ -19,6 +19,8 @@ import (
 	"strings"
 
 	sdk "github.com/cosmos/cosmos-sdk/types"
+
+	"verif/harness/chain"
 )
 
 // Driver runs one mode ("replay", "random", ...) of a module harness.
@@ -78,6 +80,7 @@ func Main(module string, d Driver) {
 		fl.Cfg[p[0]] = p[1]
 	}
 	_ = sdk.GetConfig()
+	chain.DriverCfg = cfg
 	if err := d(mode, fl); err != nil {
 		fmt.Fprintln(os.Stderr, "harness error:", err)
 		os.Exit(2)
